@@ -3,7 +3,7 @@ import ast
 
 from sa.index import AnalysisError
 from sa import dispatch as D, model as M, opsum as O
-from sa.rules import exh, opref, ownrule, pure
+from sa.rules import exh, opref, ownrule, pure, windowrule
 
 UNDECIDED_TODAY = ('TimedOnce', 'TimedHistorically', 'TimedSince', 'TimedAlways', 'TimedEventually', 'TimedUntil', 'TimedPrecedes')
 
@@ -31,9 +31,7 @@ def opsum_offline_discrete(ix, rep, mon, rule='R-OPSUM'):
         out[nc.name] = nf
         want = opref.DISCRETE.get(nc.name)
         if want is None:
-            if nf[0] == 'unknown':
-                rep.undecided(rule, f.module.rel, f.qual, slot, 'window arithmetic is not summarised (%s)' % nf[1][:60], f.node.lineno)
-            continue
+            continue  # bounded operators: decided by the window rule
         if nf[0] == 'unknown':
             rep.error('%s (%s): handler of %s is no longer in a summarised idiom (%s); it was decided on the pinned tree'
                       % (f.where, f.qual, nc.name, nf[1]))
@@ -108,6 +106,8 @@ def check(ix, rep):
     # 2. operator summaries against the reference table
     sums, decided = opsum_offline_discrete(ix, rep, mon)
     rep.floor('handlers summarised and compared with the reference', decided, 30)
+    nw, _w = windowrule.check_offline(ix, rep, mon)
+    rep.floor('bounded operators whose window was derived and compared', nw, 6)
     # 3. compositionality side conditions
     n = pure.pure_handlers(ix, rep, mon)
     rep.floor('handlers checked for purity', n, 38)
